@@ -14,7 +14,7 @@ PROFILE = dict(
     lengths=[2, 4, 6, 10],
     weights=dict(faulted=0.3, run=3, start=2.5, finish=2, sched_cancel=0.3, purge=0.5, acct_flush=0.3, modify_source=0.3,
                  delete_output=0.3),
-    p_job_ok=0.6, p_hashing=0.2,
+    p_job_ok=0.6, p_hashing=0.2, p_kill_streak=0.3,
 )
 
 
